@@ -19,6 +19,7 @@ import (
 
 	proxyv1alpha1 "github.com/kubewharf/kubegateway/pkg/apis/proxy/v1alpha1"
 	"github.com/kubewharf/kubegateway/pkg/ratelimiter/limiter"
+	_interface "github.com/kubewharf/kubegateway/pkg/ratelimiter/store/interface"
 )
 
 type c07Item struct {
@@ -42,7 +43,7 @@ type c07Schema struct {
 }
 
 type c07Step struct {
-	Op string      `json:"op"` // reports | setschema | remove
+	Op string      `json:"op"` // reports | setschema | remove | overlap (rs[0] parked while the schema change is handled)
 	Rs []c07Report `json:"rs"`
 	c07Schema
 	I int `json:"i"`
@@ -178,9 +179,29 @@ type held struct {
 }
 type holdKey struct{ i, s int }
 
+// parkStore is the real store; it can hold ONE lookup of the upstream state condition right after
+// it was served, i.e. deschedule the caller between that lookup and its next statement.
+type parkStore struct {
+	_interface.LimitStore
+	armed   int32
+	reached chan struct{}
+	resume  chan struct{}
+}
+
+func (s *parkStore) Get(cluster, name string) (*proxyv1alpha1.RateLimitCondition, error) {
+	cond, err := s.LimitStore.Get(cluster, name)
+	if name == cluster+".state" && atomic.CompareAndSwapInt32(&s.armed, 1, 0) {
+		close(s.reached)
+		<-s.resume
+	}
+	return cond, err
+}
+
 func runHist(c c07Case) interface{} {
 	rig := newLimRig("me", 1, "local")
 	rig.startLeading(0)
+	park := &parkStore{}
+	rig.v.WrapStore(0, func(s _interface.LimitStore) _interface.LimitStore { park.LimitStore = s; return park })
 	schemas := append([]c07Schema{}, c.Schemas...)
 	cl := cluster(schemas)
 	rig.setCluster(cl)
@@ -209,7 +230,16 @@ func runHist(c c07Case) interface{} {
 		ob := c07StepObs{Reports: []c07Res{}, Schemas: []c07SchemaObs{}}
 		before := levels()
 		switch st.Op {
-		case "reports":
+		case "reports", "overlap":
+			overlap := st.Op == "overlap"
+			if overlap && len(st.Rs) != 1 {
+				panic("overlap takes one report")
+			}
+			if overlap {
+				// the report will be parked right after its lookup of the upstream state
+				park.reached, park.resume = make(chan struct{}), make(chan struct{})
+				atomic.StoreInt32(&park.armed, 1)
+			}
 			ob.Reports = make([]c07Res, len(st.Rs))
 			newHolds := make([]map[holdKey]held, len(st.Rs))
 			// overlapping reports: every goroutine spins on a barrier and all are released at
@@ -281,12 +311,19 @@ func runHist(c c07Case) interface{} {
 						if it.Name != schemaName(r.Items[j].S) {
 							panic("answer items out of order")
 						}
-						q, b, ok := project(types[j], it.LimitItemDetail)
+						tj := types[j]
+						if overlap && r.Items[j].S == st.S {
+							// answered under the new item type if the change was served first
+							if _, _, ok := project(st.Typ, it.LimitItemDetail); ok {
+								tj = st.Typ
+							}
+						}
+						q, b, ok := project(tj, it.LimitItemDetail)
 						if !ok {
 							panic("answer item without the upstream's limit member")
 						}
 						ob.Reports[k].Ans = append(ob.Reports[k].Ans, c07Ans{Ok: true, Q: q, B: b})
-						nh[holdKey{r.I, r.Items[j].S}] = held{types[j], int32(q), int32(b)}
+						nh[holdKey{r.I, r.Items[j].S}] = held{tj, int32(q), int32(b)}
 					}
 					ob.Reports[k].Res = "ok"
 					newHolds[k] = nh
@@ -294,6 +331,35 @@ func runHist(c c07Case) interface{} {
 			}
 			ready.Wait()
 			atomic.StoreInt32(&release, 1)
+			if overlap {
+				done := make(chan struct{})
+				go func() { wg.Wait(); close(done) }()
+				select {
+				case <-park.reached:
+					// ... while the schema change is handled completely ...
+					for k := range schemas {
+						if schemas[k].S == st.S {
+							schemas[k] = st.c07Schema
+						}
+					}
+					cl = cluster(schemas)
+					rig.setCluster(cl)
+					must(rig.v.Handler(cl))
+					// ... and then goes on
+					close(park.resume)
+				case <-done:
+					// the report never looked the state up (refused earlier): plain sequence report; change
+					atomic.StoreInt32(&park.armed, 0)
+					for k := range schemas {
+						if schemas[k].S == st.S {
+							schemas[k] = st.c07Schema
+						}
+					}
+					cl = cluster(schemas)
+					rig.setCluster(cl)
+					must(rig.v.Handler(cl))
+				}
+			}
 			wg.Wait()
 			for k, r := range st.Rs {
 				if newHolds[k] != nil {
